@@ -49,7 +49,51 @@ func Damage(t *sim.Tape, frame []byte, fm []ref.Field, other []byte, allowHuge b
 		}
 		return c[t.Int(len(c))], true
 	}
-	switch t.Pick(4, 4, 6, 4, 3, 2, 3, 2, 4) {
+	switch t.Pick(4, 4, 6, 4, 3, 2, 3, 2, 4, 3) {
+	case 9: // a well-formed property that MQTT does not allow in this packet, appended to a property section
+		var plen *ref.Field
+		var cands []*ref.Field
+		for i := range fm {
+			if fm[i].Kind == "varint" && (fm[i].Name == "PropertyLength" || fm[i].Name == "WillPropertyLength") {
+				cands = append(cands, &fm[i])
+			}
+		}
+		if len(cands) == 0 {
+			return append([]byte{}, frame...), "none"
+		}
+		plen = cands[t.Int(len(cands))]
+		d := &ref.PropTable[t.Int(len(ref.PropTable))]
+		if t.Bool(1, 2) {
+			// the two identifiers decoders handle through special paths (lists)
+			d = ref.Lookup([]byte{0x0B, 0x26}[t.Int(2)])
+		}
+		prop := []byte{d.ID}
+		switch d.Kind {
+		case ref.KByte:
+			prop = append(prop, byte(t.Int(2)))
+		case ref.KU16:
+			prop = append(prop, byte(t.Int(256)), byte(t.Int(256)))
+		case ref.KU32:
+			prop = append(prop, 0, 0, byte(t.Int(256)), byte(t.Int(256)))
+		case ref.KVarint:
+			prop = ref.AppendVarint(prop, uint32(1+t.Int(300)))
+		case ref.KUTF8, ref.KBinary:
+			prop = append(prop, 0, 1, 'x')
+		case ref.KPair:
+			prop = append(prop, 0, 1, 'k', 0, 1, 'v')
+		}
+		old, _, _ := ref.ParseVarint(frame[plen.Start:plen.End])
+		secEnd := plen.End + int(old)
+		if secEnd > len(frame) {
+			return append([]byte{}, frame...), "none"
+		}
+		var out []byte
+		out = append(out, frame[:plen.Start]...)
+		out = ref.AppendVarint(out, old+uint32(len(prop)))
+		out = append(out, frame[plen.End:secEnd]...)
+		out = append(out, prop...)
+		out = append(out, frame[secEnd:]...)
+		return FixRL(out), "foreign-or-extra-property"
 	case 8: // a property repeated inside its section (as is, or with a zero-length / zero value), lengths made truthful
 		var props []ref.Field
 		var plen *ref.Field
